@@ -15,9 +15,35 @@ var (
 	getRand sync.Once
 )
 
+// lockedSource makes the source of random numbers safe for the goroutines that evaluate records in parallel.
+type lockedSource struct {
+	mtx sync.Mutex
+	src rand.Source64
+}
+
+func (s *lockedSource) Int63() int64 {
+	s.mtx.Lock()
+	n := s.src.Int63()
+	s.mtx.Unlock()
+	return n
+}
+
+func (s *lockedSource) Uint64() uint64 {
+	s.mtx.Lock()
+	n := s.src.Uint64()
+	s.mtx.Unlock()
+	return n
+}
+
+func (s *lockedSource) Seed(seed int64) {
+	s.mtx.Lock()
+	s.src.Seed(seed)
+	s.mtx.Unlock()
+}
+
 func GetRand() *rand.Rand {
 	getRand.Do(func() {
-		random = rand.New(rand.NewSource(time.Now().UnixNano()))
+		random = rand.New(&lockedSource{src: rand.NewSource(time.Now().UnixNano()).(rand.Source64)})
 	})
 	return random
 }
